@@ -77,6 +77,10 @@ RULES = [
     (r"^(marker|any|ptr::NonNull|ascii|char::methods)::", TOTAL, "total helpers"),
     (r"^char::(is_\w+|to_ascii_\w+|len_utf8|from_u32|to_digit)$", TOTAL, "total"),
     (r"^error::Error::\w+$", TOTAL, "total"),
+    (r"^bool::(then_some|then)$", TOTAL, "total (the closure of `then` is analysed as its own body)"),
+    (r"^str::(Utf8Error|error::Utf8Error)::(valid_up_to|error_len)$", TOTAL, "total accessors"),
+    (r"^ops::(Range|RangeInclusive|RangeTo|RangeFrom)::(contains|is_empty|start|end|len)$", TOTAL, "total range helpers"),
+    (r"^cmp::(Ordering::\w+|Reverse)", TOTAL, "total"),
     (r"^array::<impl \[T; N\]>::(as_slice|map|iter|each_ref)$", TOTAL, "total"),
     # ---- alloc / std value types used by the stream parser (panic-relevant view only) -----------
     (r"^(vec::Vec|collections::HashMap|collections::hash::map::HashMap|boxed::Box|string::String)::(new|default|len|is_empty|iter|get|"
